@@ -139,7 +139,7 @@ theorem I0.step {s s' : MS} {e : Ev} (h : I0 s) (hs : MempoolLock.step .v0 s e =
         have := h.wr hw
         show s.readers - 1 = 0
         omega
-    · cases hs
+    · simp at hs
   | addCheck i => simp [MempoolLock.step] at hs
   | spawnCommit =>
     simp only [MempoolLock.step] at hs
@@ -192,6 +192,8 @@ theorem I0.step {s s' : MS} {e : Ev} (h : I0 s) (hs : MempoolLock.step .v0 s e =
       · cases hs
     · cases hs
   | handleRecheck => simp [MempoolLock.step] at hs
+  | retCheck i => simp [MempoolLock.step] at hs
+  | retRecheck => simp [MempoolLock.step] at hs
 
 theorem I0.run {s s' : MS} {es : List Ev} (h : I0 s) (hs : MempoolLock.run .v0 s es = some s') : I0 s' := by
   induction es generalizing s with
@@ -230,7 +232,7 @@ theorem I1.step {s s' : MS} {e : Ev} (h : I1 s) (hs : MempoolLock.step .v1 s e =
   cases e <;> simp only [MempoolLock.step] at hs
   case spawnCheck i => split at hs <;> cases hs; exact ⟨h.cw⟩
   case prelude i => split at hs <;> cases hs; exact ⟨h.cw⟩
-  case relCheck i => split at hs <;> cases hs; exact ⟨h.cw⟩
+  case relCheck i => split at hs <;> first | (cases hs; exact ⟨h.cw⟩) | simp at hs
   case addCheck i => split at hs <;> cases hs; exact ⟨h.cw⟩
   case spawnCommit => split at hs <;> cases hs; exact ⟨by simp⟩
   case lockCommit => split at hs <;> cases hs; exact ⟨by simp⟩
@@ -239,6 +241,8 @@ theorem I1.step {s s' : MS} {e : Ev} (h : I1 s) (hs : MempoolLock.step .v1 s e =
   case relCommit => split at hs <;> cases hs; exact ⟨by simp⟩
   case relRecheck j => split at hs <;> cases hs; exact ⟨h.cw⟩
   case handleRecheck => split at hs <;> cases hs; exact ⟨h.cw⟩
+  case retCheck i => simp at hs
+  case retRecheck => simp at hs
 
 theorem I1.run {s s' : MS} {es : List Ev} (h : I1 s) (hs : MempoolLock.run .v1 s es = some s') : I1 s' := by
   induction es generalizing s with
@@ -355,7 +359,7 @@ theorem IA.step {s s' : MS} {e : Ev} (h : IA s) (hs : MempoolLock.step .v0a s e 
               · exact absurd hm hne
               · simpa using hm
       · cases hs
-    · cases hs
+    · simp at hs
   case addCheck i => simp at hs
   case spawnCommit =>
     split at hs <;> cases hs
@@ -403,6 +407,8 @@ theorem IA.step {s s' : MS} {e : Ev} (h : IA s) (hs : MempoolLock.step .v0a s e 
         subst hq
         simpa using hm
   case handleRecheck => simp at hs
+  case retCheck i => simp at hs
+  case retRecheck => simp at hs
 
 theorem IA.run {s s' : MS} {es : List Ev} (h : IA s) (hs : MempoolLock.run .v0a s es = some s') : IA s' := by
   induction es generalizing s with
@@ -417,5 +423,262 @@ theorem IA.run {s s' : MS} {es : List Ev} (h : IA s) (hs : MempoolLock.run .v0a 
 
 theorem IA.init (p : Nat) : IA { pool := p } :=
   ⟨by simp [holds], by simp, by simp, rfl, rfl, by simp⟩
+
+/-! ## v0 over a general connection -/
+
+/-- invariant: read locks = blocking checker calls; the write lock excludes them; the committer's
+gate states hold the write lock; inside the commit window no checker call has returned unanswered -/
+structure IG (s : MS) : Prop where
+  nodup : (s.chk.map (·.1)).Nodup
+  cnt : s.readers = gateCount s.chk
+  wr : s.writer = true → s.readers = 0
+  cw : holds s.cpc = true → s.writer = true
+  cq : inCommitWindow s = true → ∀ p ∈ s.chk, p.2 ≠ .queued
+
+theorem window_holds {s : MS} (h : inCommitWindow s = true) : holds s.cpc = true := by
+  revert h; simp only [inCommitWindow]; cases s.cpc <;> simp [holds]
+
+theorem IG.step {s s' : MS} {e : Ev} (h : IG s) (hs : MempoolLock.step .v0g s e = some s') : IG s' := by
+  cases e <;> simp only [MempoolLock.step] at hs
+  case spawnCheck i =>
+    split at hs <;> cases hs
+    rename_i hk
+    have habs := kpc_none_absent s i hk
+    refine ⟨?_, ?_, h.wr, h.cw, ?_⟩
+    · simp only [List.map_append, List.map_cons, List.map_nil]
+      refine List.nodup_append.mpr ⟨h.nodup, by simp, ?_⟩
+      intro a ha b hb
+      simp at hb
+      subst hb
+      obtain ⟨p, hp, rfl⟩ := List.mem_map.mp ha
+      exact habs p hp
+    · simp [gateCount, List.filter_append, isGate, h.cnt]
+    · intro hw p hp
+      rcases List.mem_append.mp hp with hp | hp
+      · exact h.cq hw p hp
+      · simp at hp; subst hp; simp
+  case prelude i =>
+    split at hs <;> cases hs
+    rename_i hk
+    have hc := setL_count s.chk i .wantR .atGate h.nodup (by simpa [kpc] using hk.1)
+    refine ⟨by simpa [setK_chk, setL_keys] using h.nodup, ?_, ?_, h.cw, ?_⟩
+    · have := h.cnt
+      simp at hc
+      show s.readers + 1 = gateCount (setL s.chk i KPC.atGate)
+      omega
+    · intro hw
+      have : s.writer = true := hw
+      simp [hk.2] at this
+    · intro hw
+      have hwr : s.writer = true := h.cw (window_holds hw)
+      simp [hk.2] at hwr
+  case relCheck i =>
+    split at hs
+    · rename_i hk
+      cases hs
+      have hc := setL_count s.chk i .atGate .done h.nodup (by simpa [kpc] using hk)
+      refine ⟨by simpa [setK_chk, setL_keys] using h.nodup, ?_, ?_, h.cw, ?_⟩
+      · have := h.cnt
+        simp at hc
+        show s.readers - 1 = gateCount (setL s.chk i KPC.done)
+        omega
+      · intro hw
+        have := h.wr hw
+        show s.readers - 1 = 0
+        omega
+      · intro hw p hp
+        rcases mem_setL (by simpa [setK_chk] using hp) with rfl | ⟨hp', _⟩
+        · simp
+        · exact h.cq hw p hp'
+    · split at hs
+      · rename_i hk
+        cases hs
+        have hc := setL_count s.chk i .queued .done h.nodup (by simpa [kpc] using hk.2)
+        refine ⟨by simpa [setK_chk, setL_keys] using h.nodup, ?_, h.wr, h.cw, ?_⟩
+        · have := h.cnt
+          simp at hc
+          show s.readers = gateCount (setL s.chk i KPC.done)
+          omega
+        · intro hw p hp
+          rcases mem_setL (by simpa [setK_chk] using hp) with rfl | ⟨hp', _⟩
+          · simp
+          · exact h.cq hw p hp'
+      · cases hs
+  case addCheck i => simp at hs
+  case spawnCommit =>
+    split at hs <;> cases hs
+    exact ⟨h.nodup, h.cnt, h.wr, by simp [holds], by simp [inCommitWindow]⟩
+  case lockCommit =>
+    split at hs <;> cases hs
+    rename_i hk
+    refine ⟨h.nodup, h.cnt, ?_, by simp, by simp [inCommitWindow]⟩
+    intro _
+    have := hk.2
+    simp [lockFree] at this
+    exact this.2
+  case relFlush =>
+    split at hs
+    · rename_i hk
+      split at hs
+      · rename_i hq
+        cases hs
+        refine ⟨h.nodup, h.cnt, h.wr, fun _ => h.cw (by simp [hk, holds]), ?_⟩
+        intro _ p hp
+        have := hq.1
+        simp only [List.all_eq_true] at this
+        simpa using this p hp
+      · cases hs
+    · cases hs
+  case relockCommit => simp at hs
+  case relCommit =>
+    split at hs
+    · rename_i hk
+      have hwin : inCommitWindow s = true := by simp [inCommitWindow, hk]
+      have hw := h.cw (window_holds hwin)
+      split at hs <;> cases hs
+      · exact ⟨h.nodup, h.cnt, by simp, by simp [holds], by simp [inCommitWindow]⟩
+      · exact ⟨h.nodup, h.cnt, h.wr, fun _ => hw, fun _ => h.cq hwin⟩
+    · cases hs
+  case relRecheck j =>
+    split at hs
+    · rename_i cur left hk
+      have hwin : inCommitWindow s = true := by simp [inCommitWindow, hk]
+      have hw := h.cw (window_holds hwin)
+      split at hs
+      · split at hs <;> cases hs
+        · exact ⟨h.nodup, h.cnt, by simp, by simp [holds], by simp [inCommitWindow]⟩
+        · exact ⟨h.nodup, h.cnt, h.wr, fun _ => hw, fun _ => h.cq hwin⟩
+      · split at hs <;> cases hs
+        exact ⟨h.nodup, h.cnt, h.wr, h.cw, fun hw' => h.cq (by simpa [inCommitWindow] using hw')⟩
+    · split at hs <;> cases hs
+      exact ⟨h.nodup, h.cnt, h.wr, h.cw, fun hw' => h.cq (by simpa [inCommitWindow] using hw')⟩
+  case handleRecheck => simp at hs
+  case retCheck i =>
+    split at hs <;> cases hs
+    rename_i hk
+    have hc := setL_count s.chk i .atGate .queued h.nodup (by simpa [kpc] using hk.2)
+    have hcnt := h.cnt
+    simp at hc
+    refine ⟨by simpa [setK_chk, setL_keys] using h.nodup, ?_, ?_, h.cw, ?_⟩
+    · show s.readers - 1 = gateCount (setL s.chk i KPC.queued)
+      omega
+    · intro hw
+      have := h.wr hw
+      show s.readers - 1 = 0
+      omega
+    · -- a blocking call exists, so the write lock is not held: not inside the window
+      intro hw
+      have hwr : s.writer = true := h.cw (window_holds hw)
+      have := h.wr hwr
+      omega
+  case retRecheck =>
+    split at hs
+    · split at hs
+      · rename_i cur left hk
+        have hwin : inCommitWindow s = true := by simp [inCommitWindow, hk]
+        have hw := h.cw (window_holds hwin)
+        split at hs <;> cases hs
+        · exact ⟨h.nodup, h.cnt, by simp, by simp [holds], by simp [inCommitWindow]⟩
+        · exact ⟨h.nodup, h.cnt, h.wr, fun _ => hw, fun _ => h.cq hwin⟩
+      · cases hs
+    · cases hs
+
+theorem IG.run {s s' : MS} {es : List Ev} (h : IG s) (hs : MempoolLock.run .v0g s es = some s') : IG s' := by
+  induction es generalizing s with
+  | nil => simp [MempoolLock.run] at hs; subst hs; exact h
+  | cons e es ih =>
+    simp only [MempoolLock.run] at hs
+    cases he : MempoolLock.step .v0g s e with
+    | none => simp [he] at hs
+    | some s1 =>
+      rw [he] at hs
+      exact ih (h.step he) hs
+
+theorem IG.init (p : Nat) : IG { pool := p } :=
+  ⟨by simp, by simp [gateCount], by simp, by simp [holds], by simp [inCommitWindow]⟩
+
+/-! every run of the local-client discipline `v0` is a run of the general discipline `v0g` -/
+
+def noQ (s : MS) : Prop := (∀ p ∈ s.chk, p.2 ≠ KPC.queued) ∧ s.rechecks = []
+
+theorem noQ_setK {s : MS} {i : Nat} {k : KPC} (h : ∀ p ∈ s.chk, p.2 ≠ KPC.queued) (hk : k ≠ .queued) :
+    ∀ p ∈ (setK s i k).chk, p.2 ≠ KPC.queued := by
+  intro p hp
+  rcases mem_setL (by simpa [setK_chk] using hp) with rfl | ⟨hp', _⟩
+  · exact hk
+  · exact h p hp'
+
+theorem v0_step_in_v0g {s s' : MS} {e : Ev} (hq : noQ s) (h : MempoolLock.step .v0 s e = some s') :
+    MempoolLock.step .v0g s e = some s' ∧ noQ s' := by
+  cases e <;> simp only [MempoolLock.step] at h ⊢
+  case spawnCheck i =>
+    split at h <;> cases h
+    rename_i hk
+    refine ⟨by simp [hk], ?_, hq.2⟩
+    intro p hp
+    rcases List.mem_append.mp hp with hp | hp
+    · exact hq.1 p hp
+    · simp at hp; subst hp; simp
+  case prelude i =>
+    split at h <;> cases h
+    rename_i hk
+    exact ⟨by simp [hk], noQ_setK hq.1 (by simp), hq.2⟩
+  case relCheck i =>
+    split at h
+    · rename_i hk
+      cases h
+      exact ⟨by simp [hk], noQ_setK hq.1 (by simp), hq.2⟩
+    · simp at h
+  case addCheck i => simp at h
+  case spawnCommit =>
+    split at h <;> cases h
+    rename_i hk
+    exact ⟨by simp [hk], hq⟩
+  case lockCommit =>
+    split at h <;> cases h
+    rename_i hk
+    exact ⟨by simp [hk], hq⟩
+  case relFlush =>
+    split at h <;> cases h
+    rename_i hk
+    refine ⟨?_, hq⟩
+    have : (s.chk.all fun p => p.2 != KPC.queued) = true := by
+      simp only [List.all_eq_true]; intro p hp; simpa using hq.1 p hp
+    simp [hk, this, hq.2]
+  case relockCommit => simp at h
+  case relCommit =>
+    split at h
+    · rename_i hk
+      split at h <;> cases h
+      · rename_i hp; exact ⟨by simp [hk, hp], hq⟩
+      · rename_i hp; exact ⟨by simp [hk, hp], hq⟩
+    · cases h
+  case relRecheck j =>
+    split at h
+    · rename_i cur left hk
+      split at h
+      · rename_i hj
+        split at h <;> cases h
+        · rename_i hl; exact ⟨by simp [hj, hl], hq⟩
+        · rename_i hl; exact ⟨by simp [hj, hl], hq⟩
+      · cases h
+    · cases h
+  case handleRecheck => simp at h
+  case retCheck i => simp at h
+  case retRecheck => simp at h
+
+theorem v0_run_in_v0g {s s' : MS} {es : List Ev} (hq : noQ s) (h : MempoolLock.run .v0 s es = some s') :
+    MempoolLock.run .v0g s es = some s' := by
+  induction es generalizing s with
+  | nil => simpa [MempoolLock.run] using h
+  | cons e es ih =>
+    simp only [MempoolLock.run] at h ⊢
+    cases he : MempoolLock.step .v0 s e with
+    | none => simp [he] at h
+    | some s1 =>
+      rw [he] at h
+      obtain ⟨h1, h2⟩ := v0_step_in_v0g hq he
+      rw [h1]
+      exact ih h2 h
 
 end Tmv.MempoolLock
